@@ -31,9 +31,9 @@ def run(ctx):
                                                lambda: rpipe.export(ctx, "realpbf"), lambda: rpipe.export(ctx, "mockbig"))
     cases = []
     nseeds = 2 if quick else 4
-    for i, c in enumerate(rpipe.sample([c for c in mock if faulty(c)], 160 if quick else 2500, rnd)):
+    for i, c in enumerate(rpipe.sample(mock, 160 if quick else 2500, rnd, pred=faulty)):
         cases.append(rpipe.mk_case(i, "mock", c, rnd, nseeds))
-    for i, c in enumerate(rpipe.sample([c for c in mockfd if faulty(c)], 60 if quick else 1000, rnd)):
+    for i, c in enumerate(rpipe.sample(mockfd, 60 if quick else 1000, rnd, pred=faulty)):
         cases.append(rpipe.mk_case(i, "mockfd", c, rnd, nseeds))
     # six chunks with the smallest real queue bounds: both queues are full and read thread, parser and consumer are all
     # blocked or about to block when the consumer stops / a fault hits (the consumer waits a moment before its first call)
@@ -41,8 +41,8 @@ def run(ctx):
         cases.append(rpipe.mk_case(i, "mockfd" if c["cfg"]["fd"] else "mock", c, rnd, nseeds, qin=2, qout=2,
                                    start_delay_us=rnd.choice([0, 2000, 6000])))
         cases[-1]["id"] = "big-%d" % i
-    pbf = [c for c in pbf if faulty(c) and rpipe.mask_of(c["cfg"]) and rpipe.literal_reads_ok(c)]
-    for i, c in enumerate(rpipe.sample(pbf, 80 if quick else 1000, rnd)):
+    okpbf = lambda c: faulty(c) and rpipe.mask_of(c["cfg"]) and rpipe.literal_reads_ok(c)
+    for i, c in enumerate(rpipe.sample(pbf, 80 if quick else 1000, rnd, pred=okpbf)):
         cases.append(rpipe.mk_case(i, "realpbf", c, rnd, nseeds, format="pbf", R=rnd.choice([3, 40]),
                                    mask=rpipe.mask_of(c["cfg"]), meta=True, single=False))
     nexec, nvalid = rpipe.run_cases(ctx, cases)
